@@ -230,3 +230,38 @@ class CopiesTableEntry:
             params = copy.deepcopy(_setting("params"))
         self.params = params
         self.size = _setting("size")
+
+
+from collections import OrderedDict
+
+_BY_ID_SELF = OrderedDict()
+_BY_ID_COPY = OrderedDict()
+
+
+class _Rec:
+    def __init__(self, points):
+        self.points = points
+        self.total = float(points.sum())
+
+    def describes(self, a):
+        return self.points.shape == a.shape and np.array_equal(self.points, a)
+
+
+def total_by_id_self(a):
+    """pattern G, planted: the record validates the array against itself"""
+    known = _BY_ID_SELF.get(id(a))
+    if known is not None and known.describes(a):
+        return known.total
+    fresh = _Rec(a)
+    _BY_ID_SELF[id(a)] = fresh
+    return fresh.total
+
+
+def total_by_id_copy(a):
+    """clean twin: the record holds a private copy"""
+    known = _BY_ID_COPY.get(id(a))
+    if known is not None and known.describes(a):
+        return known.total
+    fresh = _Rec(a.copy())
+    _BY_ID_COPY[id(a)] = fresh
+    return fresh.total
